@@ -28,7 +28,8 @@ EXTENDS Naturals, Integers, Sequences, FiniteSets, TLC, Json, IOUtils, TLCExt
 CONSTANTS MaxTrip,     \* iterations per loop instance / length of an I() list
           MaxSteps,    \* steps per execution (longer executions are not judged)
           MaxDepth,    \* call depth
-          MaxDec       \* decisions per execution (state constraint DecBound)
+          MaxDec,      \* decisions per execution (state constraint DecBound)
+          IntMax       \* pure profile: every parameter ranges over 0..IntMax
 
 Progs == JsonDeserialize(IOEnv.PROG_FILE)
 
@@ -44,11 +45,12 @@ VARIABLES pid,     \* index of the program of the batch this behaviour executes
           rd,      \* cells read by the last step
           wr,      \* cells (re)bound or unbound by the last step
           steps,
+          inp,     \* pure profile: the integer inputs bound to the parameters of the main function
           xlog,    \* length of the effect log when the exception that is propagating / escaped was raised
           xnode,   \* the node whose execution raised it (0 = none)
           crossed, \* an exception has crossed an activation boundary (raised by a callee into its caller)
           oc       \* "outside the class": an exception raised by a call was caught by a handler of the caller
-vars == <<pid, ctrl, envs, cells, log, dec, status, cur, how, rd, wr, steps, xlog, xnode, crossed, oc>>
+vars == <<pid, ctrl, envs, cells, log, dec, status, cur, how, rd, wr, steps, inp, xlog, xnode, crossed, oc>>
 
 P        == Progs[pid]
 ND(n)    == P.nodes[n]
@@ -67,6 +69,7 @@ Truthy(v) == CASE v[1] = "b" -> v[2] = 1
                [] v[1] = "n" -> FALSE
                [] v[1] = "i" -> v[2] # 0
                [] v[1] = "l" -> v[3] > 0
+               [] v[1] = "r" -> v[2] > 0
                [] OTHER -> TRUE          \* tokens, closures, exception objects
 
 (* ---- static scoping (language reference 4.2.2): locals of a function ---- *)
@@ -118,6 +121,22 @@ Eval(e, env, S) ==
     [] x.kind = "const" -> [v |-> IntV(x.k), s |-> S]
     [] x.kind = "none"  -> [v |-> NoneV, s |-> S]
     [] x.kind = "bool"  -> [v |-> BoolV(x.k = 1), s |-> S]
+    [] x.kind \in {"add", "sub", "mul", "lt", "le", "gt", "ge", "eq", "ne"} ->
+        LET r1 == Eval(x.args[1], env, S) IN
+        IF r1.s.err # "" THEN r1 ELSE
+        LET r2 == Eval(x.args[2], env, r1.s) IN
+        IF r2.s.err # "" THEN r2 ELSE
+        IF r1.v[1] # "i" \/ r2.v[1] # "i" THEN [v |-> NoneV, s |-> [r2.s EXCEPT !.err = "TypeError"]]
+        ELSE LET a == r1.v[2]  b == r2.v[2] IN
+             [v |-> CASE x.kind = "add" -> IntV(a + b) [] x.kind = "sub" -> IntV(a - b) [] x.kind = "mul" -> IntV(a * b)
+                      [] x.kind = "lt" -> BoolV(a < b) [] x.kind = "le" -> BoolV(a <= b) [] x.kind = "gt" -> BoolV(a > b)
+                      [] x.kind = "ge" -> BoolV(a >= b) [] x.kind = "eq" -> BoolV(a = b) [] x.kind = "ne" -> BoolV(a # b),
+              s |-> r2.s]
+    [] x.kind = "range" ->       \* range(e): a list of the ints 0..e-1
+        LET r == Eval(x.args[1], env, S) IN
+        IF r.s.err # "" THEN r
+        ELSE IF r.v[1] # "i" THEN [v |-> NoneV, s |-> [r.s EXCEPT !.err = "TypeError"]]
+        ELSE [v |-> <<"r", IF r.v[2] > 0 THEN r.v[2] ELSE 0, 0>>, s |-> r.s]
     \* `ops` lists the overloadable operators this expression goes through, in invocation order, each with the
     \* length of the effect log at the moment of invocation (C04): not_ is invoked after its operand, and_/or_
     \* before their (lazy) operands, if_exp after the condition and before the chosen branch.
@@ -199,7 +218,8 @@ Apply(r) ==
   /\ ctrl' = r.ctrl /\ log' = r.log /\ cells' = r.cells
   /\ status' = r.status /\ how' = r.how /\ wr' = r.wr
 
-ExcV(name) == <<"exc", <<"e", 0, 0>>>>   \* implicit exception (NameError ...): never caught by E1/E2 handlers
+\* implicit exception (never caught by the E1/E2 handlers the class allows): 1 = NameError, 2 = TypeError
+ExcV(name) == <<"exc", <<"e", IF name = "NameError" THEN 1 ELSE 2, 0>>>>
 Quiet == UNCHANGED <<envs, dec, log, cells, status>> /\ how' = "" /\ rd' = {} /\ wr' = {}
 
 (* evaluate expression e of node n under every canonical choice vector; K(r) continues *)
@@ -275,8 +295,9 @@ Exec(n) ==
       [] d.kind = "for" ->
           WithEval(n, d.e, env, LAMBDA r :
              /\ log' = r.s.log /\ UNCHANGED <<envs, status>> /\ how' = ""
-             /\ LET cnt == r.v[3]
-                    its == [j \in 1..cnt |-> <<"e", r.v[2], j>>]
+             /\ r.v[1] \in {"l", "r"}           \* generator guarantees an iterable (otherwise not judged)
+             /\ LET cnt == IF r.v[1] = "l" THEN r.v[3] ELSE r.v[2]
+                    its == [j \in 1..cnt |-> IF r.v[1] = "l" THEN <<"e", r.v[2], j>> ELSE IntV(j - 1)]
                     c   == CellOf(envs, env, d.tgt[1]) IN
                 IF cnt = 0 THEN ctrl' = WithElse(c1, n, env) /\ UNCHANGED cells /\ wr' = {}
                 ELSE /\ ctrl' = Append(c1, [Frame("for", d.body, n, env) EXCEPT !.items = Tail(its)])
@@ -338,7 +359,7 @@ Exec(n) ==
 
 Step ==
   /\ status[1] = "run" /\ steps < MaxSteps
-  /\ steps' = steps + 1 /\ UNCHANGED pid
+  /\ steps' = steps + 1 /\ UNCHANGED <<pid, inp>>
   /\ IF Top.i <= Len(Top.blk) THEN Exec(Top.blk[Top.i]) ELSE Finish
   /\ LET resumed == Top.i > Len(Top.blk) /\ Top.k = "finally"      \* a finally block re-raising its pending exception
          cr == crossed \/ (how' = "exc" /\ NCalls(ctrl') < NCalls(ctrl) /\ status'[1] = "run") IN
@@ -355,7 +376,10 @@ Init ==
          idx(nm) == CHOOSE i \in 1..n : ord[i] = nm
          pidx(nm) == CHOOSE i \in 1..Len(FN(1).params) : FN(1).params[i] = nm IN
      /\ envs = << [fn |-> 1, parent |-> 0, cellOf |-> [nm \in NameSet |-> IF nm \in loc THEN idx(nm) ELSE 0]] >>
-     /\ cells = [i \in 1..n |-> IF ord[i] \in Range(FN(1).params) THEN <<"t", 0, pidx(ord[i])>> ELSE Unbound]
+     /\ inp \in IF P.pure = 1 THEN [1..Len(FN(1).params) -> 0..IntMax] ELSE {<<>>}
+     /\ cells = [i \in 1..n |-> IF ord[i] \in Range(FN(1).params)
+                                THEN (IF P.pure = 1 THEN IntV(inp[pidx(ord[i])]) ELSE <<"t", 0, pidx(ord[i])>>)
+                                ELSE Unbound]
   /\ ctrl = << Frame("call", FN(1).body, 0, 1) >>
   /\ log = <<>> /\ dec = <<>> /\ status = <<"run", NoneV>> /\ cur = 0 /\ steps = 0 /\ how = ""
   /\ rd = {} /\ wr = {} /\ xlog = 0 /\ xnode = 0 /\ crossed = FALSE /\ oc = FALSE
@@ -365,5 +389,5 @@ DecBound == Len(dec) <= MaxDec      \* CONSTRAINT: executions consuming more dec
 
 Terminal == status[1] # "run"
 (* reporting invariant: one JSON line per complete execution *)
-Emit == Terminal => PrintT(ToJson([pid |-> pid, dec |-> dec, log |-> log, out |-> status, xlog |-> xlog, xnode |-> xnode, oc |-> oc]))
+Emit == Terminal => PrintT(ToJson([pid |-> pid, dec |-> dec, inp |-> inp, log |-> log, out |-> status, xlog |-> xlog, xnode |-> xnode, oc |-> oc]))
 =============================================================================
